@@ -2,7 +2,7 @@
    merge_*: about try_to_merge_ops REGENERATED from data_algebra/data_ops_utils.py (Gen/G_MergeOps.v). *)
 From Coq Require Import List Bool String.
 Import ListNotations.
-From DA Require Import Base.PyRT Base.Val Model.Extend Gen.G_MergeOps Proofs.MergeOpsP.
+From DA Require Import Base.PyRT Base.Val Model.Extend Model.MergeGuard Gen.G_MergeOps Proofs.MergeOpsP Proofs.MergeGuardP.
 
 (* Whenever try_to_merge_ops merges two extend steps, the merged step denotes, column for column, the same frame
    as the two steps applied one after the other -- for EVERY pair of assignment dictionaries (repeated and
@@ -27,6 +27,31 @@ Theorem C06_merged_extend_assigns_the_same_columns :
   NoDup (dict_keys m) /\ forall k, In k (dict_keys m) <-> In k (dict_keys o1) \/ In k (dict_keys o2).
 Proof. exact @merge_keys. Qed.
 Print Assumptions C06_merged_extend_assigns_the_same_columns.
+
+(* extend_parsed_ merges only under its window test (Model/MergeGuard.v, hand model tied by correspondence).  Whenever that
+   test passes and the regenerated try_to_merge_ops merges, the new step -- had it become a node of its own -- and the
+   merged node both carry exactly the window bookkeeping of the node merged into: the same windowed_situation (which decides
+   which expressions ExtendNode accepts), partition (the number 1 normalised to the empty list), order and reversal.
+   p: the predicate "the operator implies a windowed situation", arbitrary. *)
+Theorem C06_merged_extend_has_the_window_of_both_steps :
+  forall (E : Type) (deps : E -> list string) (p : E -> bool) (o1 o2 m : pydict string E) (a1 a2 : wargs),
+  NoDup (dict_keys o1) -> NoDup (dict_keys o2) ->
+  try_to_merge_ops (get_columns_used deps) o1 o2 = Some m ->
+  merge_guard (implies_windowed p o2) a2 (node_of (implies_windowed p o1) a1) = true ->
+  node_of (implies_windowed p o2) a2 = node_of (implies_windowed p o1) a1
+  /\ node_of (implies_windowed p m) a2 = node_of (implies_windowed p o1) a1.
+Proof. exact @merged_extend_window. Qed.
+Print Assumptions C06_merged_extend_has_the_window_of_both_steps.
+
+(* non-vacuity: two windowed steps over the whole table pass the test (partition_by=1 after a sum); a whole-table
+   window requested for `_size()` (which does not itself imply a window) after a plain extend does not -- the case
+   that was merged, and then rejected by ExtendNode, before the fix 240a99b *)
+Example C06_guard_passes :
+  merge_guard false (mkwargs true [] [] []) (node_of true (mkwargs false [] [] [])) = true.
+Proof. vm_compute. reflexivity. Qed.
+Example C06_guard_refuses_plain_then_whole_table_window :
+  merge_guard false (mkwargs true [] [] []) (node_of false (mkwargs false [] [] [])) = false.
+Proof. vm_compute. reflexivity. Qed.
 
 (* non-vacuity: a merge that happens (overwriting assignment), and the formerly unsound one is now refused *)
 Example C06_merge_happens :
